@@ -17,6 +17,9 @@ Rule family R11 (definite assignment of field attributes) + shape of __eq__/__re
 
 Round 4: a cached tuple of field names is resolved through the class builder; the no-sharing
 rules of C19 / C13 (what init stores is the keyword or a deep copy of the default).
+
+Round 5: __eq__ walking __slots__ (scratch slots, descriptor flags); Packet.__str__ / __format__
+must be total because __repr__ formats nested packets with them.
 """
 import ast
 
